@@ -8,11 +8,19 @@ and `params.ContentChanges[0]` on an empty list are `Res.panic` in
 `Variant.orig`; an unrecovered panic in the handler goroutine kills the
 process (the driver then answers `DEAD` until the next `reset`).
 
-Library results are parameters carried by the request (DESIGN §5): the parse
-errors of a text (`parse.Parse` + `parse.UnpackErrors`) and the result of
+The parser is the real one: `updateDocument` runs the C01 model of
+`parse.Parse` on the text (round 2; it used to be a parameter).  `np.Find`,
+the `np` matchers and `PurelyEvalPartialCompound` that `hover` uses are the
+C43 model's (`C43.findN … false`, `matchKind`, `matchSimpleExpr`), `doc.Source`
+is modelled in `ElvModel/C44/Hover.lean`.
+
+Library results that remain parameters (DESIGN §5), bundled in `Lib`:
+`unicode.IsPrint` (the parser's parameter), `getHome`, the table of documented
+symbols (`docsMap()`), and — carried by each text — the result of
 `complete.Complete` for each dot.
 -/
 import ElvModel.C44.Model
+import ElvModel.C44.Hover
 namespace C44
 open Go
 
@@ -22,17 +30,34 @@ inductive Comp where
   | ok (n : Nat) (name : String) (frm to : Int)
   deriving Repr, DecidableEq
 
-/-- A text together with the library results about it. -/
-structure Doc where
+/-- A text as a client sends it, together with the completer's results about it. -/
+structure Text where
   code : Bytes
-  errs : List (Int × Int)
   comp : List (Nat × Comp)
   deriving Repr, DecidableEq
+
+/-- `document{code, parseTree, parseErr}` (plus the completer table of the text);
+`errs` is `parse.UnpackErrors(parseErr)`. -/
+structure Doc where
+  code : Bytes
+  tree : C01.Node
+  errs : List C01.PErr
+  comp : List (Nat × Comp)
+  deriving Repr
+
+/-- `parse.Parse(parse.Source{Name: uri, Code: code}, parse.Config{})` and the
+construction of the `document` value.  The C01 model's outcomes `panic` / out
+of fuel are kept (`C01_total_lossless` proves they do not occur). -/
+def parseText (lib : Lib) (t : Text) : Res Doc :=
+  match C01.parse lib.isPrint t.code with
+  | .ok tree errs => .ok ⟨t.code, tree, errs, t.comp⟩
+  | .panic w => .panic w
+  | .fuel => .exc "FUEL"
 
 /-- `server.documents`: URI ↦ document (at most one binding per URI). -/
 structure Server where
   docs : List (Bytes × Doc)
-  deriving Repr, DecidableEq
+  deriving Repr
 
 def Server.new : Server := ⟨[]⟩
 
@@ -47,8 +72,8 @@ inductive PK where
   deriving Repr, DecidableEq
 
 inductive Req where
-  | didOpen (uri : Bytes) (d : Doc)
-  | didChange (uri : Bytes) (changes : List Doc)
+  | didOpen (uri : Bytes) (t : Text)
+  | didChange (uri : Bytes) (changes : List Text)
   | hover (uri : Bytes) (line char : Int)
   | completion (uri : Bytes) (line char : Int)
   | raw (method : String) (pk : PK)
@@ -60,56 +85,63 @@ abbrev Rng := Pos × Pos
 inductive HRes where
   | null
   | caps                         -- `*lsp.InitializeResult`
-  | hover                        -- `lsp.Hover{…}` or nil (content is the doc library's)
+  | hover (content : Option String) -- `lsp.Hover{Contents: …}` (which documentation text) or nil
   | items0                       -- `[]lsp.CompletionItem{}`
   | items (n kind : Nat) (r : Rng)
   | error (code : Int)
   deriving Repr, DecidableEq
 
-/-- One `textDocument/publishDiagnostics` notification: URI and ranges. -/
-abbrev Diag := Bytes × List Rng
+/-- One `lsp.Diagnostic`: range and message (severity and source are constants). -/
+abbrev DiagItem := Rng × C01.Msg
+
+/-- One `textDocument/publishDiagnostics` notification: URI and diagnostics. -/
+abbrev Diag := Bytes × List DiagItem
 
 structure HOut where
   srv : Server
   res : HRes
   diag : Option Diag
-  deriving Repr, DecidableEq
+  deriving Repr
 
 def codeMethodNotFound : Int := -32601
 def codeInvalidParams : Int := -32602
 
-/-- `(*server).updateDocument`: store the document, publish its diagnostics. -/
+/-- The second half of `(*server).updateDocument`: store the parsed document,
+publish its diagnostics — the `i`-th diagnostic is made from the `i`-th entry of
+`parse.UnpackErrors(err)`: its range converted, its message. -/
 def updateDocument (v : Variant) (s : Server) (uri : Bytes) (d : Doc) : Server × Diag :=
   -- (the walk of `d.code` is shared between the errors: `rangeV v d.code f t`
   -- is `rangeOfVisits (visits v d.code) f t` by definition)
   let vs := visits v d.code
   ({ docs := (uri, d) :: s.docs.filter (fun e => e.1 != uri) },
-   (uri, d.errs.map fun e => rangeOfVisits vs e.1 e.2))
+   (uri, d.errs.map fun e => (rangeOfVisits vs e.frm e.to, e.msg)))
 
-def didOpen (v : Variant) (s : Server) (uri : Bytes) (d : Doc) : Res HOut :=
+/-- `(*server).updateDocument`: parse, then the above. -/
+def updateText (v : Variant) (lib : Lib) (s : Server) (uri : Bytes) (t : Text) : Res HOut := do
+  let d ← parseText lib t
   let (s', dg) := updateDocument v s uri d
   pure ⟨s', .null, some dg⟩
 
-def didChange (v : Variant) (s : Server) (uri : Bytes) (changes : List Doc) : Res HOut :=
+def didOpen (v : Variant) (lib : Lib) (s : Server) (uri : Bytes) (t : Text) : Res HOut :=
+  updateText v lib s uri t
+
+def didChange (v : Variant) (lib : Lib) (s : Server) (uri : Bytes) (changes : List Text) : Res HOut :=
   match v with
   | .orig => do
-    let d ← index changes 0            -- params.ContentChanges[0]
-    let (s', dg) := updateDocument v s uri d
-    pure ⟨s', .null, some dg⟩
+    let t ← index changes 0            -- params.ContentChanges[0]
+    updateText v lib s uri t
   | .fixed =>
     match changes.getLast? with
     | none => pure ⟨s, .error codeInvalidParams, none⟩
-    | some d =>
-      let (s', dg) := updateDocument v s uri d
-      pure ⟨s', .null, some dg⟩
+    | some t => updateText v lib s uri t
 
-def hover (v : Variant) (s : Server) (uri : Bytes) (line char : Int) : Res HOut :=
+def hover (v : Variant) (lib : Lib) (s : Server) (uri : Bytes) (line char : Int) : Res HOut :=
   match s.find uri with
   | none => pure ⟨s, .error codeInvalidParams, none⟩
-  | some d =>
-    -- `np.Find(tree.Root, pos)` and `doc.Source` are total for any `pos`
-    let _pos := toIdxV v d.code line char
-    pure ⟨s, .hover, none⟩
+  | some d => do
+    let pos := toIdxV v d.code line char
+    let c ← hoverContent lib d.tree pos
+    pure ⟨s, .hover c, none⟩
 
 /-- `switch result.Name` -/
 def kindOf (name : String) : Nat :=
@@ -141,11 +173,11 @@ def unmarshalsToZero : PK → Bool
   | .illTyped => false
 
 /-- `routingHandler` + the method: the handler's return value.  `empty` is the
-document for the text `""` (what a zero-valued `didOpen` stores). -/
-def handle (v : Variant) (empty : Doc) (s : Server) : Req → Res HOut
-  | .didOpen uri d => didOpen v s uri d
-  | .didChange uri cs => didChange v s uri cs
-  | .hover uri l c => hover v s uri l c
+text `""` with its completer table (what a zero-valued `didOpen` stores). -/
+def handle (v : Variant) (lib : Lib) (empty : Text) (s : Server) : Req → Res HOut
+  | .didOpen uri t => didOpen v lib s uri t
+  | .didChange uri cs => didChange v lib s uri cs
+  | .hover uri l c => hover v lib s uri l c
   | .completion uri l c => completion v s uri l c
   | .raw m pk =>
     if !(methodTable.contains m) then pure ⟨s, .error codeMethodNotFound, none⟩
@@ -154,9 +186,9 @@ def handle (v : Variant) (empty : Doc) (s : Server) : Req → Res HOut
     else if m = "textDocument/didClose" || m = "initialized" || m = "workspace/didChangeWatchedFiles" then
       pure ⟨s, .null, none⟩
     else if !(unmarshalsToZero pk) then pure ⟨s, .error codeInvalidParams, none⟩
-    else if m = "textDocument/didOpen" then didOpen v s [] empty
-    else if m = "textDocument/didChange" then didChange v s [] []
-    else if m = "textDocument/hover" then hover v s [] 0 0
+    else if m = "textDocument/didOpen" then didOpen v lib s [] empty
+    else if m = "textDocument/didChange" then didChange v lib s [] []
+    else if m = "textDocument/hover" then hover v lib s [] 0 0
     else completion v s [] 0 0
 
 /-- What the client sees for one message. -/
@@ -169,29 +201,29 @@ structure Out where
   srv : Server
   reply : Reply
   diag : Option Diag
-  deriving Repr, DecidableEq
+  deriving Repr
 
 /-- `HandlerWithError.Handle`: call the handler; answer iff the message has an id. -/
-def serve (v : Variant) (empty : Doc) (s : Server) (hasId : Bool) (r : Req) : Res Out := do
-  let o ← handle v empty s r
+def serve (v : Variant) (lib : Lib) (empty : Text) (s : Server) (hasId : Bool) (r : Req) : Res Out := do
+  let o ← handle v lib empty s r
   pure ⟨o.srv, if hasId then .res o.res else .none, o.diag⟩
 
 /-- A client that sends messages back to back: the handler is synchronous, so
 they are served in order; the notifications reach the wire in the order
 `updateDocument` is called (fixed tree: `conn.Notify` is called from the
 handler itself). -/
-def serveAll (v : Variant) (empty : Doc) : Server → List (Bool × Req) → Res (Server × List Out)
+def serveAll (v : Variant) (lib : Lib) (empty : Text) : Server → List (Bool × Req) → Res (Server × List Out)
   | s, [] => pure (s, [])
   | s, (hasId, r) :: rest => do
-    let o ← serve v empty s hasId r
-    let (s', os) ← serveAll v empty o.srv rest
+    let o ← serve v lib empty s hasId r
+    let (s', os) ← serveAll v lib empty o.srv rest
     pure (s', o :: os)
 
 /-- The `publishDiagnostics` notifications of a run, in wire order (fixed tree). -/
 def published (os : List Out) : List Diag := os.filterMap (·.diag)
 
-def burst (v : Variant) (empty : Doc) (s : Server) (uri : Bytes) (ds : List Doc) : Res (Server × List Diag) := do
-  let (s', os) ← serveAll v empty s (ds.map fun d => (false, Req.didChange uri [d]))
+def burst (v : Variant) (lib : Lib) (empty : Text) (s : Server) (uri : Bytes) (ds : List Text) : Res (Server × List Diag) := do
+  let (s', os) ← serveAll v lib empty s (ds.map fun d => (false, Req.didChange uri [d]))
   pure (s', published os)
 
 end C44
